@@ -547,6 +547,10 @@ def gen_multi(ctx):
         for first in ('users', 'posts'):
             for coerce in (True, False):
                 yield dict(part='samename', disp=disp, first=first, coerce=coerce)
+        for group in ('float', 'int'):
+            for order in itertools.permutations(range(3)):
+                for coerce in (True, False):
+                    yield dict(part='eqsig', disp=disp, group=group, order=list(order), coerce=coerce)
 
 
 def run_multi(case, rec):
@@ -645,6 +649,39 @@ def run_samename(case, rec):
     return tuple(obs)
 
 
+def run_eqsig(case, rec):
+    """methods whose signatures COMPARE equal (defaults 1 / 1.0 / True, 0 / False) validated by one validator object: each
+    one's omitted argument must be its own default, whichever was called first"""
+    is_async = case['disp'] == 'async'
+    log = []
+    v = vpd.PydanticValidator(coerce=case['coerce'])
+
+    def mk(ann, default, tag):
+        ns = {'_log': log, 'A': ann}
+        exec('%sdef scale(x: A = %r):\n    _log.append((%r, type(x).__name__, x))\n    return [%r, type(x).__name__, repr(x)]\n' % (
+            'async ' if is_async else '', default, tag, tag), ns)
+        return ns['scale']
+    group = {'float': [(float, 1, 'i'), (float, 1.0, 'f'), (float, True, 'b')], 'int': [(int, 0, 'i'), (int, False, 'b'), (int, 0.0, 'f')]}[case['group']]
+    order = [group[i] for i in case['order']]
+    d = pjrpc.server.AsyncDispatcher() if is_async else pjrpc.server.Dispatcher()
+    for ann, default, tag in order:
+        d.add(v.validate(mk(ann, default, tag)), name='scale_' + tag)
+    obs = []
+    for rep in (1, 2):
+        for ann, default, tag in order:
+            del log[:]
+            resp = json.loads(dispatch(d, is_async, json.dumps({'jsonrpc': '2.0', 'id': 1, 'method': 'scale_' + tag}))[0])
+            rec.transitions += 1
+            want = [tag, type(default).__name__, repr(default)]
+            ok = resp.get('result') == want and log == [(tag, type(default).__name__, default)]
+            rec.outcomes['eqsig:%s' % ('ok' if ok else 'BAD')] += 1
+            if not ok:
+                rec.violation('C14:methods with equal-comparing signatures under one validator object:omitted argument is not the method\'s own default',
+                              dict(case, method='scale_' + tag), expected=want, observed=dict(response=resp, saw=repr(log)))
+            obs.append(ok)
+    return tuple(obs)
+
+
 def run_viewpred(case, rec):
     """a class based view method under a validator whose exclusion predicate also matches the (unannotated) `self`"""
     import inspect
@@ -705,7 +742,7 @@ def gen_cases(ctx):
 def run_case(case, rec):
     from mc.core import Recorder
     r = Recorder()
-    obs = {'js': run_js, 'ctx': run_ctx, 'pd': run_pd, 'multi': run_multi, 'viewpred': run_viewpred, 'samename': run_samename}[case['part']](case, r)
+    obs = {'js': run_js, 'ctx': run_ctx, 'pd': run_pd, 'multi': run_multi, 'viewpred': run_viewpred, 'samename': run_samename, 'eqsig': run_eqsig}[case['part']](case, r)
     r.states += 1
     r.traces += 1
     r.nontrivial_n += 1
